@@ -220,10 +220,15 @@ class Exec:
                 self._viol("read_raised", ["read_raised", type(e).__name__], f"sbml.read of document {doc} at {op['path']} raised {type(e).__name__}: {str(e)[:100]}")
                 return
             mod = valid_filename(p.stem)
-            gdir = Path(os.environ["HOME"]) / ".cache" / "mxlpy"
-            # the generated module this read produced: the most recently stamped source of that stem
-            cands = sorted(gdir.glob(f"{mod}*.py"), key=lambda q: (q.stat().st_mtime_ns, q.name)) if gdir.exists() else []
-            size = cands[-1].stat().st_size if cands else -1
+            # the generated module this read produced: the one its rate functions live in
+            size = -1
+            try:
+                fn = next(iter(m.get_raw_reactions(as_copy=False).values())).fn
+                gen = getattr(sys.modules.get(fn.__module__), "__file__", None)
+                if gen and os.path.exists(gen):
+                    size = os.stat(gen).st_size
+            except Exception:  # noqa: BLE001
+                size = -1
             sec = CLOCK.now_ns // 10**9
             prev = self.last_read.get(mod)
             ctx = {"same_stem_before": prev is not None, "same_second": bool(prev and prev[0] == sec), "same_size": bool(prev and prev[1] == size), "other_doc": bool(prev and prev[2] != doc)}
